@@ -230,6 +230,16 @@ macro_rules! tokheap {
     };
 }
 
+// larger than a cache line, size not a power of two
+macro_rules! tok96 {
+    ($name:ident, $class:expr) => {
+        ledger_token!($name, $class, u64, #[repr(C)] { id: u32, pay: u64, pad: [u64; 10] },
+            new(id, pay) $name { id, pay, pad: [pay ^ 0x3333_3333_3333_3333; 10] },
+            id(s) s.id, pay(s) if s.pad.iter().all(|&x| x == s.pay ^ 0x3333_3333_3333_3333) { s.pay } else { !s.pay },
+            set(s, p) { s.pay = p; s.pad = [p ^ 0x3333_3333_3333_3333; 10]; });
+    };
+}
+
 tok8!(TokA8, 1);
 tok8!(TokB8, 2);
 tok3!(TokA3, 3);
@@ -238,6 +248,8 @@ tok16!(TokA16, 5);
 tok16!(TokB16, 6);
 tok64!(TokA64, 7);
 tok64!(TokB64, 8);
+tok96!(TokA96, 11);
+tok96!(TokB96, 12);
 tokheap!(TokAH, 9);
 tokheap!(TokBH, 10);
 
